@@ -271,3 +271,77 @@ def c17_routes(ctx, I, t):
     table(ctx, 'PETE-SCENARIO', 'day-officer/spirit:date-routes', odom, officer, officer_orc,
           'day officer and day spirit reached from a civil date use the month branch of the governing Jie (modern and Julian-era term placements; every third day of a year)',
           fmt(scen), fn_site(p, 'SixtyCycleDay::get_duty'))
+
+
+def c15_edge(ctx, I, t):
+    """term-anchored day series on the first days of 0001 and the last days of 9999: the anchoring term (a December term of year 0) or the
+    end of the series (in year 10000) lies outside the civil range although the day asked about is inside it"""
+    from rules.c15 import COMMAND, TYPE_NAMES, TERMS
+    p = ctx.prog
+    scen = edge_scenarios()
+    ctx.rule('RANGE-END', 'the first and last days / lunar years of the supported range: the answer exists although a neighbouring term, month or day lies outside the range')
+    nine_names = t.names('NINE_NAMES')
+    ph_names = t.names('PHENOLOGY_NAMES')
+    dom = [(si, n) for si in range(len(scen)) for n in scen[si][3]]
+
+    def nine(x):
+        si, n = x
+        cm = CalModel(I, scen[si][1], scen[si][2])
+        r = t.m(cm.solar_day_n(n), 'get_nine_day')
+        return (t.name(t.m(r.v, 'get_nine')), py(t.m(r.v, 'get_day_index'))) if r.some else None
+
+    def nine_orc(x):
+        si, n = x
+        for (ty, ti), (tn, ts) in scen[si][1].items():
+            if ti == 0 and tn <= n < tn + 81:
+                return (nine_names[(n - tn) // 9], (n - tn) % 9)
+        return None
+    table(ctx, 'RANGE-END', 'RANGE:SolarDay::get_nine_day', dom, nine, nine_orc,
+          u'数九 on the first days of 0001 (counted from the solstice of December of year 0) and the last days of 9999 (the 81 days end in year 10000)', fmt(scen), fn_site(p, 'SolarDay::get_nine_day'))
+
+    def gov(si, n, pred):
+        return max((tn, ti) for (ty, ti), (tn, ts) in scen[si][1].items() if tn <= n and pred(ti))
+
+    def pheno(x):
+        si, n = x
+        cm = CalModel(I, scen[si][1], scen[si][2])
+        r = t.m(cm.solar_day_n(n), 'get_phenology_day')
+        return (t.name(t.m(r, 'get_phenology')), py(t.m(r, 'get_day_index')))
+
+    def pheno_orc(x):
+        si, n = x
+        tn, ti = gov(si, n, lambda i: True)
+        pent = min((n - tn) // 5, 2)
+        return (ph_names[ti * 3 + pent], n - tn - 5 * pent)
+    table(ctx, 'RANGE-END', 'RANGE:SolarDay::get_phenology_day', dom, pheno, pheno_orc,
+          u'七十二候 on the first days of 0001 (the governing term starts in December of year 0) and the last days of 9999', fmt(scen), fn_site(p, 'SolarDay::get_phenology_day'))
+
+    def cmd(x):
+        si, n = x
+        cm = CalModel(I, scen[si][1], scen[si][2])
+        r = t.m(cm.solar_day_n(n), 'get_hide_heaven_stem_day')
+        h = t.m(r, 'get_hide_heaven_stem')
+        return (t.name(t.m(h, 'get_heaven_stem')), t.name(t.m(h, 'get_type')), py(t.m(r, 'get_day_index')))
+
+    def cmd_orc(x):
+        si, n = x
+        tn, ti = gov(si, n, lambda i: i % 2 == 1)
+        k = n - tn
+        acc = 0
+        for sj, s in enumerate(COMMAND[G.BRANCHES[(2 + (ti - 3) // 2) % 12]]):
+            if s is None:
+                continue
+            stem, cnt = s
+            if cnt is None or k < acc + cnt:
+                return (stem, TYPE_NAMES[sj], k - acc)
+            acc += cnt
+    table(ctx, 'RANGE-END', 'RANGE:SolarDay::get_hide_heaven_stem_day', dom, cmd, cmd_orc,
+          u'人元司令分野 on the first days of 0001 (the governing Jie is 大雪 / 小寒 around the turn of year 0) and the last days of 9999', fmt(scen), fn_site(p, 'SolarDay::get_hide_heaven_stem_day'))
+
+    def none_series(x):
+        si, n = x
+        cm = CalModel(I, scen[si][1], scen[si][2])
+        d = cm.solar_day_n(n)
+        return (t.m(d, 'get_dog_day').some, t.m(d, 'get_plum_rain_day').some)
+    table(ctx, 'RANGE-END', 'RANGE:SolarDay::get_dog_day/get_plum_rain_day', dom, none_series, lambda x: (False, False),
+          u'no day of January 0001 or December 9999 is a Dog day or a Plum-rain day (and asking does not fail)', fmt(scen), fn_site(p, 'SolarDay::get_dog_day'))
